@@ -158,6 +158,21 @@ pub fn gen(tier: &str, rng: &mut Rng, emit: &mut dyn FnMut(String)) {
         emit(format!("buf {} rp:1:{x} rp:2:{x} ob of of", hex(b"/a~1b/c~0/d")));
         emit(format!("buf {} pf:{x} rp:1:{} rp:2:{} ob ob", hex(b"/k/l"), hex(b"y"), hex(b"z")));
     }
+    // every token length through push_front / push_back / pop (plain and with one escape)
+    for l in sweep_lengths(tier) {
+        let a = "a".repeat(l);
+        emit(format!("buf {} pf:{} pb:{} of ob", hex(b"/k"), hex(a.as_bytes()), hex(a.as_bytes())));
+        if l % 3 == 0 {
+            emit(format!("buf {} pf:{} ob of", hex(b""), hex(format!("~{a}").as_bytes())));
+        }
+    }
+    // a pointer whose text is longer than u16::MAX: replace / pop far behind that offset
+    {
+        let p: String = (0..9000).map(|i| format!("/member-{i:05}")).collect();
+        for i in [0usize, 17, 4500, 5041, 5042, 8100, 8999, 9000] {
+            emit(format!("buf {} rp:{i}:{} ob of", hex(p.as_bytes()), hex(b"w/~")));
+        }
+    }
     for n in MANY {
         let p: String = (0..n).map(|i| format!("/t~0{}", i % 3)).collect();
         for i in [0, 1, n / 2, n - 1, n, usize::MAX] {
